@@ -1923,15 +1923,44 @@ def check_element_index_kind(ck, tier):
             a = env.alias(n)
             return a.get("d") if a is not None and a.get("k") == "Ref" and a.get("dk") in ("local", "param") else None
 
+        # local containers whose content the rule cannot account for: handed to a callee by non-const reference, or written by
+        # an algorithm with an unmodelled source; values read from them are "unknown", never "definitely not from the old list"
+        opaque = set()
+        for n in nodes:
+            if featlib.is_call(n) and n.get("k") in ("Call", "MCall", "OpCall", "Construct", "TempObj") and \
+                    strip_targs(n.get("callee") or "") not in ("std::move", "std::forward", "std::as_const", "std::addressof", "std::swap"):
+                args = n.get("a") or []
+                pts = n.get("pt") or []
+                off = 1 if (n.get("k") == "OpCall" and len(pts) == len(args) - 1) else 0
+                for pos, a in enumerate(args):
+                    if pos < off or pos - off >= len(pts):
+                        continue
+                    ty = f.type(pts[pos - off])
+                    if ty.rstrip().endswith("&") and not ty.lstrip().startswith("const ") and not ty.rstrip().endswith("&&"):
+                        r0 = env.alias(a)
+                        if r0 is not None and r0.get("k") == "Ref" and r0.get("dk") == "local":
+                            opaque.add(r0.get("d"))
+            for e in norm.container_effects(n, env):
+                if e["src"][0] == "unknown" or (e["src"][0] == "transform" and not (norm.lambda_returns(norm.strip(e["src"][2]))[0])):
+                    r0 = env.alias(e["dst"])
+                    if r0 is not None and r0.get("k") == "Ref":
+                        opaque.add(r0.get("d"))
+
+        def is_opaque(X):
+            a = env.alias(X) if X is not None else None
+            return a is not None and a.get("k") == "Ref" and a.get("d") in opaque
+
         def value_verdict(x):
             """True: a value of the old list; False: definitely something else (a plain read of another array / a counter /
             a literal); None: produced by an expression the rule does not understand (a callee could translate)"""
             if is_elem_value(x):
                 return True
             s0 = strip(x)
+            X = norm.elem_access(s0, env) if s0 is not None else None
+            if X is not None and is_opaque(X):
+                return None
             if s0 is not None and (s0.get("k") in ("Index", "Ref", "Int") or (s0.get("k") in ("OpCall", "MCall") and s0.get("op", s0.get("n")) in ("[]", "at"))):
                 return False
-            X = norm.elem_access(s0, env) if s0 is not None else None
             if X is not None and (env.alias(X) or {}).get("k") in ("Ref", "Member", "MCall", "Call"):
                 return False       # `*it` / `it[k]`: a plain read of another array
             return None
@@ -1946,6 +1975,8 @@ def check_element_index_kind(ck, tier):
                     return None
                 if is_container(src[1]):
                     return True
+                if is_opaque(src[1]):
+                    return None
                 return False if (env.alias(src[1]) or {}).get("k") in ("Ref", "Member") else None
             if kind == "permute":
                 return True
